@@ -191,6 +191,10 @@ INFO = {
                      "(status-line forms x codes x header blocks, cut at every byte) and all header values up to length 5 over an 11-class alphabet for the seven headers named in the property. "
                      "It is not coverage-guided fuzzing over all byte strings.",
                 note=_TB + "Only the stated class alphabets and length bounds are explored; the documented panic at the 1000th read of a failed connection is the modelled exception (PanicAllowed)."),
+    "C08": dict(note=_TB + "Reason texts of close frames cover the UTF-8 classes (multi-byte, U+FFFD, extremes; truncated, overlong, surrogate, beyond U+10FFFF, lone continuation). "
+                "The replies are also observed while another goroutine writes messages (schedules of the lock-protocol model with fed pings and closes replayed through the verif gates): "
+                "every pong must carry its ping's payload. A read limit, an expired application write deadline and a timed-out application WriteControl must not change the replies.",
+                technique="TLA+ model (WSReader, WSConc) checked with TLC; TLC-generated programs and schedules replayed on the real code; trace validation with TLC"),
     "C09": dict(note=_TB + "Interleavings: the lock protocol model is checked exhaustively against the monitor (all interleavings of the modelled threads); on the real code a sample of "
                 "TLC-simulated schedules is replayed through the verif gates and free runs are validated; a rejection is about the observed order. Goroutine attribution by goroutine id."),
     "C10": dict(category="model_checking",
